@@ -117,8 +117,8 @@ func (fr *Frame) doCall(instr ssa.CallInstruction, cc *ssa.CallCommon, st *State
 	name := fr.valName(cc.Value)
 	ctx.name = "dyn:" + name
 	e.setHeap(st, "called_"+mangle(name), "Bool", "true")
-	e.note("unmodelled", "dynamic call through function value "+name+" (result havocked; ghost called("+name+") set)")
-	return fr.havocCall(ctx, false)
+	e.note("unmodelled", "dynamic call through function value "+name+" (result and all module stores havocked; ghost called("+name+") set)")
+	return fr.havocCall(ctx, true)
 }
 
 func typeKeyFull(t types.Type) string {
@@ -325,6 +325,14 @@ func (e *Engine) callMods(fr *Frame, fn *ssa.Function, x ssa.CallInstruction, de
 		}
 		if strings.HasSuffix(namedPath(cc.Value.Type()), ".BankKeeper") {
 			if ms, ok := bankModNames[cc.Method.Name()]; ok {
+				for _, n := range ms {
+					addAll(n)
+				}
+				return
+			}
+		}
+		if _, ok := invokeByMethod[cc.Method.Name()]; ok {
+			if ms, ok := methodMods[cc.Method.Name()]; ok {
 				for _, n := range ms {
 					addAll(n)
 				}
